@@ -25,6 +25,9 @@ type thread struct {
 	onTicker bool // blocked on a ticker/timer channel whose delivery budget is used up
 	top      *frame
 	started  bool
+	// the thread slept or waited for a timer since it last looked at a context's
+	// cancellation (select on Done, ctx.Err)
+	sleptSinceDone bool
 }
 
 type lockState struct {
@@ -400,6 +403,7 @@ func (m *machine) chanRecv(cv value, elem types.Type) (value, bool) {
 
 func (m *machine) takeFrom(c *chanV, elem types.Type) (value, bool) {
 	if c.ticker {
+		m.cur.sleptSinceDone = true
 		m.tickBudget--
 		return zero(elem), true
 	}
@@ -469,6 +473,15 @@ func (m *machine) doSelect(fr *frame, instr *ssa.Select) value {
 		m.schedPoint("timer")
 	} else {
 		m.schedPoint("select")
+	}
+	looksAtDone := false
+	for _, k := range cases {
+		if k.c != nil && k.c.isDone {
+			looksAtDone = true
+		}
+	}
+	if looksAtDone {
+		defer func() { m.cur.sleptSinceDone = false }()
 	}
 	rd := ready()
 	if len(rd) == 0 {
